@@ -150,7 +150,7 @@ def run(pid, tier, seed):
         names, env = envmodel.names_and_env(tbl, ft, [target.f])
         drv.ask(tbl.hier()); drv.ask(names)
         reqs, meta = [], []
-        for i in range(150 if quick else 2500):
+        for i in range(150 if quick else 20000):
             trees = [gen.ty(3), gen.ty(2), gen.ty(2)]
             try:
                 pys = [tyconv.tree_to_ty(t, tbl) for t in trees]
